@@ -491,6 +491,7 @@ size_t rtosc_print_arg_val(const rtosc_arg_val_t *arg,
                     int prec = opt->floating_point_precision;
                     assert(prec>=0);
                     assert(prec<100);
+                    if(prec < 1) prec = 1; // a period is required
 
                     // convert fractions -> float
                     float flt = rtosc_secfracs2float(secfracs);
